@@ -169,6 +169,65 @@ pub enum Case {
     /// frames that is a longer-than-any-datagram frame carrying hundreds of well-formed datagrams whose number and
     /// advertised count agree modulo 128 / 256 or not at all
     Repeated { frame: SFrame, times: u8, count: u8 },
+    /// a data frame written by an encoder of the harness's own that chooses each datagram's header form (0 micro, 1 small,
+    /// 2 large) freely among those that can hold its fields - what another implementation of the format, or a relay
+    /// that re-encodes, may send. The parser must yield the same frame whatever forms were used.
+    Forms { seq: u32, nonce: bool, dgs: Vec<SDatagram>, forms: Vec<u8> },
+}
+
+/// Encodes a data frame with the given header form per datagram (raised to the smallest form that can hold the fields).
+pub fn encode_with_forms(seq: u32, nonce: bool, dgs: &[SDatagram], forms: &[u8]) -> (Vec<u8>, Vec<u8>) {
+    let mut out = vec![10u8];
+    out.extend_from_slice(&seq.to_be_bytes());
+    out.push(((nonce as u8) << 7) | (dgs.len().min(127) as u8));
+    let mut used = Vec::new();
+    for (i, d) in dgs.iter().take(127).enumerate() {
+        let data = fill_bytes(d.fill, d.len as usize);
+        let len = data.len();
+        let unfragmented = d.f == 0 && d.l == 0;
+        let min_form = if unfragmented && len < 64 && d.w < 128 && d.h < 256 { 0 } else if unfragmented && len < 256 { 1 } else { 2 };
+        let form = (forms.get(i).copied().unwrap_or(0) % 3).max(min_form);
+        used.push(form);
+        let s = d.seq & 0xFFFFF;
+        let ch = d.ch & 63;
+        match form {
+            0 => {
+                // 0CDDDDDD SSSSCCCC SSSSSSSS SSSSSSSS CWWWWWWW HHHHHHHH
+                out.push((((ch >> 4) & 1) << 6) | (len as u8 & 0x3f));
+                out.push((((s >> 16) as u8) << 4) | (ch & 0x0f));
+                out.push((s >> 8) as u8);
+                out.push(s as u8);
+                out.push((((ch >> 5) & 1) << 7) | (d.w as u8 & 0x7f));
+                out.push(d.h as u8);
+            }
+            1 => {
+                // 10CCCCCC DDDDDDDD 0000SSSS SSSSSSSS SSSSSSSS W16 H16
+                out.push(0x80 | ch);
+                out.push(len as u8);
+                out.push((s >> 16) as u8);
+                out.push((s >> 8) as u8);
+                out.push(s as u8);
+                out.extend_from_slice(&d.w.to_be_bytes());
+                out.extend_from_slice(&d.h.to_be_bytes());
+            }
+            _ => {
+                // 11CCCCCC D16 0000SSSS S8 S8 W16 H16 F16 L16
+                out.push(0xC0 | ch);
+                out.extend_from_slice(&(len as u16).to_be_bytes());
+                out.push((s >> 16) as u8);
+                out.push((s >> 8) as u8);
+                out.push(s as u8);
+                out.extend_from_slice(&d.w.to_be_bytes());
+                out.extend_from_slice(&d.h.to_be_bytes());
+                out.extend_from_slice(&d.f.to_be_bytes());
+                out.extend_from_slice(&d.l.to_be_bytes());
+            }
+        }
+        out.extend_from_slice(&data);
+    }
+    out.extend_from_slice(&[0, 0, 0, 0]);
+    set_crc(&mut out);
+    (out, used)
 }
 
 /// The byte string a case hands to the parser (used by C19's codec cases as well).
@@ -191,6 +250,7 @@ pub fn case_bytes(case: &Case) -> Vec<u8> {
             bytes
         }
         Case::Repeated { frame, times, count } => repeated_bytes(frame, *times, *count),
+        Case::Forms { seq, nonce, dgs, forms } => encode_with_forms(*seq, *nonce, dgs, forms).0,
         Case::BitFlip { frame, positions } => {
             let mut bytes = frame.build().write().to_vec();
             let nbits = bytes.len() * 8;
@@ -367,6 +427,10 @@ impl Check for C16 {
                 }),
             4 => (frame_strategy(40), proptest::collection::vec(mutation_strategy(), 1..4), prop_oneof![3 => Just(true), 1 => Just(false)]).prop_map(|(frame, muts, fix_crc)| Case::Mutated { frame, muts, fix_crc }),
             3 => (frame_strategy(150), proptest::collection::vec(any::<u16>(), 1..=4)).prop_map(|(frame, positions)| Case::BitFlip { frame, positions }),
+            2 => (edge_u32(), any::<bool>(), proptest::collection::vec((datagram_strategy(), 0u8..3), 1..8)).prop_map(|(seq, nonce, v)| {
+                let (dgs, forms): (Vec<SDatagram>, Vec<u8>) = v.into_iter().unzip();
+                Case::Forms { seq, nonce, dgs, forms }
+            }),
             1 => (frame_strategy(40), prop_oneof![2 => 2u8..8, 2 => 8u8..40, 1 => 40u8..=255], any::<u8>(), any::<bool>()).prop_map(|(frame, times, count, exact)| {
                 // (`exact`: the advertised count is the true number of datagrams reduced modulo 128 and 256)
                 let mut case = Case::Repeated { frame, times, count };
@@ -389,7 +453,7 @@ impl Check for C16 {
     }
 
     fn rule(&self) -> String {
-        "cases: RoundTrip (generated frame of any of the nine types, boundary-biased fields), Bytes (random bytes / typed prefix + padding, checksum optionally fixed), Mutated (valid frame with 1-3 structural mutations, checksum usually re-fixed), BitFlip (valid frame <= 1472 B with 1-4 distinct bit flips through the real Frame::read). Non-trivial: RoundTrip with a field on an encoding threshold (len 63/64/255/256, W 127/128, H 255/256, L 0/1, 127 datagrams, >=155 ack groups) or a multi-datagram frame; Bytes/Mutated whose input passed the CRC gate; BitFlip always. Distinct = distinct serialised case. Plus an exhaustive decision of all 1..4-bit error patterns over 11776 bit positions (coverage.crc_enumeration).".into()
+        "cases: RoundTrip (generated frame of any of the nine types, boundary-biased fields), Bytes (random bytes / typed prefix + padding, checksum optionally fixed), Mutated (valid frame with 1-3 structural mutations, checksum usually re-fixed), BitFlip (valid frame <= 1472 B with 1-4 distinct bit flips through the real Frame::read), Forms (a data frame of 1-7 datagrams written by the harness's own encoder, each datagram in a freely chosen header form among those that can hold its fields: must be read as exactly that frame). Non-trivial: RoundTrip with a field on an encoding threshold (len 63/64/255/256, W 127/128, H 255/256, L 0/1, 127 datagrams, >=155 ack groups) or a multi-datagram frame; Bytes/Mutated whose input passed the CRC gate; BitFlip always. Distinct = distinct serialised case. Plus an exhaustive decision of all 1..4-bit error patterns over 11776 bit positions (coverage.crc_enumeration).".into()
     }
 
     fn assumptions(&self) -> Vec<String> {
@@ -509,6 +573,29 @@ impl Check for C16 {
                         CaseResult::ok(nt, classes)
                     }
                     Err(v) => CaseResult { violation: Some(v), nontrivial: true, classes },
+                }
+            }
+            Case::Forms { seq, nonce, dgs, forms } => {
+                let (bytes, used) = encode_with_forms(*seq, *nonce, dgs, forms);
+                classes.push("bytes_free_header_forms");
+                let want = SFrame::Data { seq: *seq, nonce: *nonce, dgs: dgs.iter().take(127).map(|d| SDatagram { seq: d.seq & 0xFFFFF, ch: d.ch & 63, len: d.len.min(65535), ..d.clone() }).collect() }.build();
+                let longer_than_needed = dgs.iter().take(127).zip(used.iter()).any(|(d, u)| {
+                    let unfragmented = d.f == 0 && d.l == 0;
+                    let min_form = if unfragmented && d.len < 64 && d.w < 128 && d.h < 256 { 0 } else if unfragmented && d.len < 256 { 1 } else { 2 };
+                    *u > min_form
+                });
+                if longer_than_needed {
+                    classes.push("header_form_longer_than_needed");
+                }
+                if let Err(v) = check_bytes(&bytes, &mut classes) {
+                    return CaseResult { violation: Some(v), nontrivial: true, classes };
+                }
+                match Frame::read(&bytes) {
+                    Some(got) if got == want => CaseResult::ok(longer_than_needed, classes),
+                    got => CaseResult::fail(
+                        "oracle:rejects_or_misreads_wellformed:data_header_forms",
+                        format!("a well-formed data frame whose datagrams use the header forms {:?} (0 micro, 1 small, 2 large; each can hold its fields) was read as {} instead of {}", used, got.as_ref().map_or("nothing (rejected)".to_string(), short_frame), short_frame(&want)),
+                    ),
                 }
             }
             Case::BitFlip { frame, positions } => {
